@@ -25,12 +25,29 @@ func (url *URLRule) createRateLimiter()
   ensures url.rl != nil
 
 // ---- C11 / C09: hot update of the filter ----
-ufunc samePolicy(s1 *Spec, s2 *Spec, ref string) bool
+// C09 / C11: a rule's policy is unchanged by a reload iff the policy it names - or, when it names none, the
+// default policy, whose name must then be unchanged too - is deeply equal in both specs
+pred policyDeepEq(a int, b int) := deepEq(typeTag("*Policy"), a, typeTag("*Policy"), b)
+pred effName(s *Spec, name string) := name != "" ? name : s.DefaultPolicyRef
+// p is the first policy of s called n (nil when there is none)
+pred firstNamed(s *Spec, n string, p *Policy) := p == nil ? (forall k int :: 0 <= k && k < len(s.Policies) ==> s.Policies[k].Name != n) : (exists k int :: 0 <= k && k < len(s.Policies) && s.Policies[k] == p && p.Name == n && (forall j int :: 0 <= j && j < k ==> s.Policies[j].Name != n))
+pred samePolicy(s1 *Spec, s2 *Spec, name string) := !(name == "" && s1.DefaultPolicyRef != s2.DefaultPolicyRef) && (exists p1, p2 *Policy :: firstNamed(s1, effName(s1, name), p1) && firstNamed(s2, effName(s1, name), p2) && policyDeepEq(ref(p1), ref(p2)))
+ghost var gPol1 int
+ghost var gPol2 int
 
 func isSamePolicy(spec1 *Spec, spec2 *Spec, policyName string) (same bool)
-  trusted
-  pure
-  ensures same == samePolicy(spec1, spec2, policyName)
+  flag frame=unchecked
+  requires spec1 != nil && spec2 != nil
+  requires forall k int :: 0 <= k && k < len(spec1.Policies) ==> spec1.Policies[k] != nil
+  requires forall k int :: 0 <= k && k < len(spec2.Policies) ==> spec2.Policies[k] != nil
+  modifies gPol1, gPol2
+  ensures decision: same == samePolicy(spec1, spec2, policyName)
+  ensures a-changed-default-only-matters-for-rules-that-use-it: policyName == "" && spec1.DefaultPolicyRef != spec2.DefaultPolicyRef ==> !same
+  ensures otherwise-the-named-policies-are-compared: !(policyName == "" && spec1.DefaultPolicyRef != spec2.DefaultPolicyRef) ==> firstNamed(spec1, effName(spec1, policyName), ptr(gPol1, "*Policy")) && firstNamed(spec2, effName(spec1, policyName), ptr(gPol2, "*Policy")) && same == policyDeepEq(gPol1, gPol2)
+  ghost at call[1] DeepEqual: gPol1 := ref(p1)
+  ghost at call[1] DeepEqual: gPol2 := ref(p2)
+  invariant[1] p1 == nil && (forall j int :: 0 <= j && j < idx$1 ==> spec1.Policies[j].Name != policyName)
+  invariant[2] p2 == nil && (forall j int :: 0 <= j && j < idx$2 ==> spec2.Policies[j].Name != policyName) && firstNamed(spec1, policyName, p1)
 
 func (rl *RateLimiter) createRateLimiterForURL(u *URLRule)
   trusted
@@ -48,13 +65,13 @@ func (rl *RateLimiter) setStateListenerForURL(u *URLRule)
   trusted
   requires u != nil && u.rl != nil
 
-pred urlsWF(s *Spec) := s != nil && (forall k int :: 0 <= k && k < len(s.URLs) ==> s.URLs[k] != nil)
+pred urlsWF(s *Spec) := s != nil && (forall k int :: 0 <= k && k < len(s.URLs) ==> s.URLs[k] != nil) && (forall k int :: 0 <= k && k < len(s.Policies) ==> s.Policies[k] != nil)
 pred disjointGenerations(a *Spec, b *Spec) := forall i, j int :: 0 <= i && i < len(a.URLs) && 0 <= j && j < len(b.URLs) ==> a.URLs[i] != b.URLs[j]
 
 func (rl *RateLimiter) reload(previousGeneration *RateLimiter)
   flag allocates
   requires rl != nil && urlsWF(rl.spec) && (previousGeneration != nil ==> previousGeneration != rl && urlsWF(previousGeneration.spec) && disjointGenerations(rl.spec, previousGeneration.spec))
-  modifies allof("filters/ratelimiter.URLRule.rl"), allof("filters/ratelimiter.URLRule.policy"), allof("filters/ratelimiter.URLRule.URLRule.id"), allof("filters/ratelimiter.URLRule.URLRule.URL.re")
+  modifies gPol1, gPol2, allof("filters/ratelimiter.URLRule.rl"), allof("filters/ratelimiter.URLRule.policy"), allof("filters/ratelimiter.URLRule.URLRule.id"), allof("filters/ratelimiter.URLRule.URLRule.URL.re")
   ensures previous-generation-keeps-its-limiters: previousGeneration != nil ==> (forall k int :: 0 <= k && k < len(previousGeneration.spec.URLs) ==> previousGeneration.spec.URLs[k].rl == old(previousGeneration.spec.URLs[k].rl))
   ensures every-rule-has-a-limiter: forall k int :: 0 <= k && k < len(rl.spec.URLs) ==> rl.spec.URLs[k].rl != nil
   ensures limiter-is-inherited-or-new: previousGeneration != nil ==> (forall k int :: 0 <= k && k < len(rl.spec.URLs) ==> fresh(rl.spec.URLs[k].rl) || (exists j int :: 0 <= j && j < len(previousGeneration.spec.URLs) && rl.spec.URLs[k].rl == old(previousGeneration.spec.URLs[j].rl) && urlrule.sameRule(ref(addr(rl.spec.URLs[k].URLRule)), ref(addr(previousGeneration.spec.URLs[j].URLRule))) && samePolicy(rl.spec, previousGeneration.spec, rl.spec.URLs[k].URLRule.PolicyRef)))
